@@ -256,11 +256,22 @@ func (ps *specParser) primary() *SExpr {
 			return &SExpr{Kind: SBool, Name: t.text, Pos: t.pos}
 		case "nil":
 			return &SExpr{Kind: SNil, Pos: t.pos}
-		case "old", "prev", "entry1", "entry2", "entry3", "entry4":
+		case "old", "prev", "head", "entry1", "entry2", "entry3", "entry4":
 			ps.expect("(")
 			x := ps.expr(0)
 			ps.expect(")")
 			return &SExpr{Kind: SOld, Name: t.text, X: x, Pos: t.pos}
+		case "forallasg":
+			// forallasg(B, body): for every assignment B
+			ps.expect("(")
+			v := ps.next()
+			if v.kind != "ident" {
+				ps.fail("expected assignment variable")
+			}
+			ps.expect(",")
+			body := ps.expr(0)
+			ps.expect(")")
+			return &SExpr{Kind: SQuant, Name: "forallasg", Vars: []string{v.text}, Args: []*SExpr{body}, Pos: t.pos}
 		case "forall", "exists":
 			ps.expect("(")
 			var vars []string
